@@ -113,6 +113,7 @@ structure Server where
   orderSeed : Nat := 0                      -- order in which the share groups are visited
   nextSeed : Nat := 0                       -- which deferred message `processPacket` releases next
   parked : List Nat := []                   -- objects whose handler is parked at `attach.beforeCleanup`
+  resendSeed : Nat := 0                     -- order in which a resumed session's messages are resent
 deriving Repr
 
 /-- a packet the broker writes, structurally (rendered to the harness's projection by `WPk.render`) -/
@@ -666,11 +667,13 @@ def nextImmediate (s : Server) (i : Nat) : Server × List Out :=
   let c := getObj s i
   if c.inflight.length > 0 && c.sendQuota > 0 then
     -- `GetAll(true)` sorted by `uint16(Created)`: within one second the order is Go's map order
-    match (permuteBy s.nextSeed (c.inflight.filter (fun m => m.expiry < 0))).head? with
+    -- each release consumes one base-64 digit of `nextSeed` (one op can release twice: the packet and
+    -- the harness's barrier PINGREQ, each with its own map-order pick)
+    match (permuteBy (s.nextSeed % 64) (c.inflight.filter (fun m => m.expiry < 0))).head? with
     | some m =>
       let o := writeMsg s i m
       let (c, ok) := flDelete c m.id
-      let s := setObj s i (decSend c)
+      let s := setObj { s with nextSeed := s.nextSeed / 64 } i (decSend c)
       (if ok then { s with info := { s.info with inflight := s.info.inflight - 1 } } else s, o)
     | none => (s, [])
   else (s, [])
@@ -857,7 +860,9 @@ def admitClient (s : Server) (i conn : Nat) (k : Connect) : Server × List Out :
   let s := { s with willDelayed := assocDel s.willDelayed k.id }
   -- ResendInflightMessages
   let (s, o3) := if present then
-      (getObj s i).inflight.foldl (fun (acc : Server × List Out) (m : Msg) =>
+      -- `Inflight.GetAll(false)`: sorted by `uint16(Created)` (whole seconds — all equal within one
+      -- history) with ties in Go's map order: any order, resolved by `resendSeed`
+      (permuteBy s.resendSeed (getObj s i).inflight).foldl (fun (acc : Server × List Out) (m : Msg) =>
         let m' := if m.type == 3 then { m with dup := true } else m
         let o := writeMsg acc.1 i m'
         let s' := if m.type == 4 || m.type == 7 then
